@@ -6,7 +6,10 @@ cd /verif
 TIER=${1:-quick}; shift
 SEEDS=${@:-20261003 1 7}
 fail=0
+# ONLY=benign or ONLY=seeds restricts the pass; MATCH=<regex> restricts ids
 for d in seeded/[CR]*; do
+  [ "${ONLY:-}" = "benign" ] && continue
+  [ -n "${MATCH:-}" ] && ! echo "$(basename $d)" | grep -Eq "$MATCH" && continue
   id=$(basename $d)
   prop=$(python3 -c "import json;m=json.load(open('$d/meta.json'));print(m.get('detected_by',{}).get('check') or m['property'])")
   res=""
@@ -18,7 +21,9 @@ for d in seeded/[CR]*; do
   echo "$id [$prop]$res"
 done
 for d in seeded/benign/B*; do
+  [ "${ONLY:-}" = "seeds" ] && continue
   id=$(basename $d)
+  [ -n "${MATCH:-}" ] && ! echo "$id" | grep -Eq "$MATCH" && continue
   props=$(python3 -c "
 m={'B08':'C08 C17','B14':'C14 C15','B14b':'C14 C15','B15':'C15 C14','B15b':'C15 C14','B15c':'C15 C14','B17':'C17 C08','B17b':'C17 C08','B08b':'C08 C17','B18b':'C18 C19','B19b':'C19 C18','B18':'C18 C19','B19':'C19 C18','B14c':'C14 C15','B17c':'C17 C08'}
 print(m.get('$id','C08 C14 C15 C17 C18 C19'))")
